@@ -6,12 +6,20 @@ import QiVerif.Generated.Endpoint
 import QiVerif.Model.Endpoint
 namespace QiVerif.Tie.C17
 
-/-- `MakeHandler`: one critical section; the first free slot, else a new slot (`Endpoint.place`) -/
+/-- `MakeHandler`: one critical section; on a closed endpoint the handler's close is scheduled and no
+    slot is taken; else the first free slot, else a new slot (`Endpoint.make`, `Endpoint.place`) -/
 theorem makeHandler_flow :
     Gen.Endpoint.makeHandlerFlow =
       ["call NewHandler",
          "handlersMutex.Lock",
          "defer e.handlersMutex.Unlock()",
+         "use closed",
+         "if e.closed {",
+         "go{",
+         "call newHandler.closeWith",
+         "}",
+         "return -1",
+         "}",
          "range handlers {",
          "if handler == nil {",
          "write handlers",
@@ -74,6 +82,7 @@ theorem closeWith_flow :
          "call e.stream.Close",
          "handlersMutex.Lock",
          "defer e.handlersMutex.Unlock()",
+         "assign closed",
          "range handlers {",
          "if handler != nil {",
          "go{",
